@@ -27,7 +27,6 @@ var c16Exempt = map[string]struct{ effects, reason string }{
 	"compiler.(*compiler).exitScope|range scp.variables":                      {"ir-emission", "emits one free per variable; frees of distinct allocations commute (no observable order)"},
 	"compiler.(*compiler).exitFuncScope|range scp.variables":                  {"ir-emission", "emits one free per variable; frees of distinct allocations commute"},
 	"compiler.(*compiler).VisitReturnStmt|range scp.variables":                {"ir-emission", "emits one free per variable; frees of distinct allocations commute"},
-	"compiler.(*compiler).compile|range c.importedModules":                    {"ir-emission", "emits one dispose call per imported module; each frees only its own module's globals"},
 	"compiler.(*compiler).addExternalDependencies|range ExternalDependencies": {"diagnostic", "keyed set insert; the handler is reached only when filepath.Abs fails (environment failure, not a function of the sources)"},
 	"compiler.compileWithImportsRec|range ExternalDependencies":               {"diagnostic", "keyed set insert; the handler is reached only when filepath.Abs fails (environment failure, not a function of the sources)"},
 }
@@ -500,7 +499,6 @@ func checkC16(c *Check) {
 }
 
 var c16DirectExempt = map[string]string{
-	"compiler.Compile|compiler.mapToSlice":                                  "order of linking LLVM modules with disjoint definitions changes symbol order only, not behaviour (assumption recorded in DESIGN.md T6)",
 	"ast.(*helperVisitor).VisitFuncCall|ast.(*helperVisitor).sortArgs":      "children are visited in argument-map order; the only pipeline visitor driven through the helper is ConstFuncParamAnnotator, whose updates are keyed and monotone (true→false)",
 	"ast.(*helperVisitor).VisitStructLiteral|ast.(*helperVisitor).sortArgs": "same as VisitFuncCall",
 }
@@ -621,6 +619,26 @@ func totalComparator(L *Loaded, info *types.Info, fl *ast.FuncLit) (bool, string
 			if call, ok := ast.Unparen(r.Results[0]).(*ast.CallExpr); ok {
 				if fn := Callee(info, call); fn != nil && (fn.Name() == "IsBefore" || fn.Name() == "IsBehind") && fn.Pkg() != nil && fn.Pkg().Name() == "token" && len(rets) == 1 {
 					return true, "token.Position." + fn.Name() + " (lexicographic on line, column)"
+				}
+			}
+		}
+	}
+	// form D: three-way comparison of one field that identifies the element (no two elements share it)
+	identityKeys := map[string]string{"ast.Module.FileName": "a module is identified by the path of its file (C10 R10.5)"}
+	if len(rets) == 1 && len(rets[0].Results) == 1 {
+		if call, ok := ast.Unparen(rets[0].Results[0]).(*ast.CallExpr); ok && len(call.Args) == 2 {
+			if fn := Callee(info, call); fn != nil && fn.Name() == "Compare" && fn.Pkg() != nil && (fn.Pkg().Path() == "strings" || fn.Pkg().Path() == "cmp") {
+				sx, okx := ast.Unparen(call.Args[0]).(*ast.SelectorExpr)
+				sy, oky := ast.Unparen(call.Args[1]).(*ast.SelectorExpr)
+				if okx && oky && sx.Sel.Name == sy.Sel.Name {
+					if v, ok := info.Uses[sx.Sel].(*types.Var); ok && v.IsField() {
+						if t := info.TypeOf(sx.X); t != nil {
+							tn := strings.TrimPrefix(types.TypeString(t, func(p *types.Package) string { return p.Name() }), "*")
+							if why, ok := identityKeys[tn+"."+v.Name()]; ok {
+								return true, "three-way comparison of " + tn + "." + v.Name() + ": " + why
+							}
+						}
+					}
 				}
 			}
 		}
